@@ -389,6 +389,22 @@ def _class_vs_proc(seq):
 
     if shape(mc) != shape(m2):
         return f"class-style views {shape(mc)} != procedural {shape(m2)}"
+    # ... and when the values bound in the class body carry names of their own already (`data = h.Output(name="d")`, a copy of
+    # another module's port): the key they are bound to is their name in the module, as with setattr
+    m3, env3 = fresh_module(h)
+    ns3 = {"z": env3["z"]}
+    for k, (name, kind) in enumerate(seq):
+        ns3[name] = mk_value(h, env3, kind)
+        ns3[name].name = f"given_{k}"
+    try:
+        mc3 = h.module(type("Subject", (), dict(ns3)))
+    except Exception as e:
+        return "class-style definition with pre-named values raised: " + short_exc(e)
+    if shape(mc3) != shape(m2):
+        return f"class-style views with pre-named values {shape(mc3)} != procedural {shape(m2)}"
+    for name in final:
+        if mc3.get(name) is not ns3[name] or getattr(mc3, name, None) is not ns3[name] or ns3[name].name != name:
+            return f"class-style definition with pre-named values: {name!r} is not (the name of) the object bound to that key"
     return None
 
 
